@@ -3,7 +3,8 @@
 rewrite of /repo is applied (undone straight afterwards), the pinned suite is run in a scratch worktree,
 and EVERY check's quick command must stay silent.  Files the result under /verif/seeded/<id>/."""
 import json, os, re, shutil, subprocess, sys
-ROOT = "/verif"
+ROOT = os.path.dirname(os.path.abspath(__file__))
+REPO = os.environ.get("CEL_REPO", "/repo")   # a lane may point the tools at its own worktree of /repo
 def sh(cmd):
     return subprocess.run(cmd, shell=True, stdout=subprocess.PIPE, stderr=subprocess.STDOUT, text=True)
 def main():
@@ -26,8 +27,8 @@ def main():
     meta["property"] = None
     meta["kind"] = "harmless: behaviour-preserving rewrite; every check must stay silent"
     meta["checks"] = res
-    meta["what_i_ran"] = "git -C /repo apply patch.diff; ./check <id> --tier quick for all 20 ids; git -C /repo checkout -- ."
-    meta["repo_head"] = sh("git -C /repo rev-parse --short HEAD").stdout.strip()
+    meta["what_i_ran"] = f"git -C {REPO} apply patch.diff; ./check <id> --tier quick for all 20 ids; git -C {REPO} checkout -- ."
+    meta["repo_head"] = sh(f"git -C {REPO} rev-parse --short HEAD").stdout.strip()
     json.dump(meta, open(dest + "/meta.json", "w"), indent=1, ensure_ascii=False)
     return 0 if all(v == "silent" for v in res.values()) else 1
 if __name__ == "__main__":
